@@ -28,6 +28,7 @@ RULE = ('Hypothesis-generated structs of 1-6 bitfields (11 types x widths 1..bit
 BUDGET = {'quick': 160, 'thorough': 6400}
 BATCH = {'quick': 12, 'thorough': 24}
 MIN_PER_SHARD = 4
+TIME = {'quick': 40, 'thorough': 900}
 ASSUMPTIONS = ['gcc -O0 x86-64 bitfield layout and access as the reference for "what C reads"',
                'field bit masks are taken from the C side (all-ones store into zeroed object)']
 
